@@ -146,4 +146,96 @@ def Instr.isLoopFrame : Instr → Bool
 catcher (all of `code`, if there is none) -/
 def errSegment (code : List Instr) : List Instr := code.takeWhile fun i => !i.catchesErr
 
+/-- an `ExceptionSignal` was enqueued (an ordinary exception was caught by one of the `except Exception`
+scopes of the library — or application code enqueued such a signal itself) -/
+def Tr.isExc : Tr → Bool
+  | .enq _ s => s.cls == .exception
+  | .dropped s => s.cls == .exception
+  | _ => false
+
+/-- no `ExceptionSignal` in the history -/
+def cleanTr (l : List Tr) : Bool := l.all fun t => !t.isExc
+
+/-! ### modal screens (C05) -/
+
+/-- **No exception escaped a callback**: no `ExceptionSignal` was enqueued in the whole history.  (An
+exception raised by `closed()` of a modal screen, or the `RenderUnexpectedError` raised by
+`close_screen` *after* it popped a modal screen that did not ask to be closed, skips `close_loop`: the
+nested loop stays open without its screen — the modal correspondence is lost.) -/
+def NoErr (c : Cfg) : Prop := cleanTr c.tr = true
+
+instance (c : Cfg) : Decidable (NoErr c) := inferInstanceAs (Decidable (_ = _))
+
+/-- the public API a *screen-level* program uses: everything except the raw nested-loop API
+`execute_new_loop`, `close_loop`, `force_quit` (which create / remove levels that belong to no screen) -/
+def Act.screenLevel : Act → Bool
+  | .newLoop .. | .closeLoop | .forceQuit => false
+  | _ => true
+
+/-- no script of the program uses the raw nested-loop API -/
+def ScreenOnly (P : Prog) : Prop :=
+  (∀ hid n, ∀ a ∈ P.handlerScript hid n, a.screenLevel = true) ∧
+  (∀ scr cb n, ∀ a ∈ (P.screenScript scr cb n).acts, a.screenLevel = true)
+
+/-- … and neither do the start-up actions performed before `App.run()` -/
+def InitScreenOnly (c0 : Cfg) : Prop := ∀ a, Instr.act a ∈ c0.code → a.screenLevel = true
+
+/-- the `closed()` callbacks of the program do nothing (they run between the pop of a screen and the
+`close_loop` of its nested loop) -/
+def ClosedSilent (P : Prog) : Prop := ∀ scr n, (P.screenScript scr .closed n).acts = []
+
+/-- number of modal entries on a screen stack -/
+def modalCount (st : List Entry) : Nat := (st.filter (·.modal)).length
+
+/-- `execute_new_loop` calls that are about to happen (pending `newLoop` instructions) -/
+def pendOpens : List Instr → Nat
+  | [] => 0
+  | .newLoop _ :: r => pendOpens r + 1
+  | _ :: r => pendOpens r
+
+/-- level pops that are about to happen: pending `close_loop` calls — as the instruction itself, as its
+final `popLevel`, or as a `close_screen` of a modal entry that has popped the entry already -/
+def pendCloses : List Instr → Nat
+  | [] => 0
+  | .closeLoop :: r => pendCloses r + 1
+  | .popLevel :: r => pendCloses r + 1
+  | .closeScreen2 e _ :: r => pendCloses r + (if e.modal then 1 else 0)
+  | _ :: r => pendCloses r
+
+/-- **WF-quiet, drain-time** (finding K2): the drain of `close_loop` (`process_signals`) dispatched
+nothing: in the history no `.take` occurs between a `.closeReq` and the next `.procEnd`.
+(`scan seen tr`: `tr` newest first; `seen` = a `.take` newer than the current position is not separated
+from it by a `.procEnd`.) -/
+def drainQuietScan : Bool → List Tr → Bool
+  | _, [] => true
+  | _, .take _ _ :: tr => drainQuietScan true tr
+  | _, .procEnd :: tr => drainQuietScan false tr
+  | seen, .closeReq _ _ :: tr => !seen && drainQuietScan seen tr
+  | seen, _ :: tr => drainQuietScan seen tr
+
+def WFQuietDrain (c : Cfg) : Prop := drainQuietScan false c.tr = true
+
+instance (c : Cfg) : Decidable (WFQuietDrain c) := inferInstanceAs (Decidable (_ = _))
+
+def wfQuietEv : Tr → Bool
+  | .closeReq _ n => n == 0
+  | _ => true
+
+/-- **WF-quiet, call-time** (finding K2): whenever `close_loop` was called, no signal was pending in the
+closing level.  (Weaker than `WFQuietDrain` when the reader thread may deliver a line between the call
+and its drain.) -/
+def WFQuiet (c : Cfg) : Prop := c.tr.all wfQuietEv = true
+
+instance (c : Cfg) : Decidable (WFQuiet c) := inferInstanceAs (Decidable (_ = _))
+
+/-- the events about modal screens and levels -/
+def Tr.isModalEv : Tr → Bool
+  | .modalBegin _ | .modalEnd _ | .openLevel .. | .closeLevel _ | .loopReturn _ => true
+  | _ => false
+
+/-- according to the history, level `q` was opened by the `push_screen_modal` call for entry `e`:
+among the modal/level events, `.openLevel q _` directly follows `.modalBegin e` -/
+def OpenedFor (q : Nat) (e : Entry) (tr : List Tr) : Prop :=
+  ∃ b t1 t0, tr.filter Tr.isModalEv = t1 ++ .openLevel q b :: .modalBegin e :: t0
+
 end Simpleline
